@@ -208,6 +208,9 @@ pub enum Space {
     /// one fixed long game from `root`: every prefix (0..=plies) is a state whose "reached" game carries the whole
     /// history (state stack up to `plies`+1 entries). The line is produced by a deterministic rule (see `long_line`).
     Line { name: String, root: String, plies: u32, rule: u32 },
+    /// explicit histories from one root: each path (UCI texts, legal on the model) is replayed and the states after
+    /// its last `visit_last` moves are visited with the whole history as their path
+    Paths { name: String, root: String, paths: Vec<Vec<String>>, visit_last: usize },
 }
 
 impl Space {
@@ -229,6 +232,7 @@ impl Space {
     pub fn name(&self) -> String {
         match self {
             Space::Line { name, plies, .. } => format!("LINE[{}] {} plies", name, plies),
+            Space::Paths { name, paths, .. } => format!("PATHS[{}] {} histories", name, paths.len()),
             Space::Enum { u, stride, offset } => {
                 if *stride > 1 {
                     format!("{} (every {}th member from offset {})", u.name(), stride, offset)
@@ -314,6 +318,44 @@ pub fn run_spaces(spaces: &[Space], visit: Visitor) -> (Acc, Vec<SpaceReport>) {
                 }
                 let (acc, layers, complete) = bfs(&rootp, *depth, *expand_cap, &name, visit);
                 note = format!("layers {:?}{}", layers, if depth.is_none() { if complete { " (fixpoint reached)" } else { " (NOT complete)" } } else { "" });
+                total.merge(acc);
+            }
+            Space::Paths { root, paths, visit_last, .. } => {
+                let rootp = match parse_fen_strict(root) {
+                    Ok(p) => p.pos.normalised(),
+                    Err(e) => {
+                        total.errors.push(format!("bad paths root {}: {}", root, e));
+                        continue;
+                    }
+                };
+                let bad: Mutex<Vec<String>> = Mutex::new(vec![]);
+                let acc = par_items(paths, &|pi, path, acc| {
+                    let mut cur = rootp;
+                    let mut line: Vec<Mv> = Vec::with_capacity(path.len());
+                    let mut positions: Vec<Pos> = Vec::with_capacity(path.len() + 1);
+                    positions.push(cur);
+                    for t in path {
+                        match cur.legal().into_iter().find(|m| &m.uci() == t) {
+                            Some(m) => {
+                                cur = cur.apply(&m).normalised();
+                                line.push(m);
+                                positions.push(cur);
+                            }
+                            None => {
+                                bad.lock().unwrap().push(format!("history {} of {}: {} is not legal after {} plies", pi, name, t, line.len()));
+                                return;
+                            }
+                        }
+                    }
+                    let first = (line.len() + 1).saturating_sub(*visit_last).max(1);
+                    for i in first..=line.len() {
+                        let ctx = StateCtx { pos: &positions[i], root: Some(&rootp), path: &line[..i], space: &name, index: (pi * 8 + (i - first)) as u64 };
+                        acc.states += 1;
+                        visit(&ctx, acc);
+                    }
+                });
+                total.errors.extend(bad.into_inner().unwrap());
+                note = format!("{} histories, lengths {}..={}", paths.len(), paths.iter().map(|p| p.len()).min().unwrap_or(0), paths.iter().map(|p| p.len()).max().unwrap_or(0));
                 total.merge(acc);
             }
             Space::Line { root, plies, rule, .. } => {
